@@ -320,6 +320,10 @@ def main():
             return [kind, [1, 1], [[int(w), 0] for w in mp.wires]]
         if isinstance(mp.obs, qp.Identity):      # non-split measurement of the identity: keep its wires (letter 4)
             return [kind, [1, 1], [[int(w), 4] for w in mp.obs.wires]]
+        if isinstance(mp.obs, SProd):
+            # a scalar wrapper is a different object from the bare word for the real code (no de-duplication between
+            # 1*Z and Z) although both denote the same word: not representable by a key, left to the direct oracle
+            return None
         lin = {w: c for w, c in op_lin(mp.obs).items() if c != 0}
         if len(lin) != 1:
             return None
@@ -356,7 +360,7 @@ def main():
             cs, os_ = obs.terms()
             for c, o in zip(cs, os_):
                 lin = op_lin(o)
-                if len(lin) != 1 or list(lin.values())[0] != 1:
+                if len(lin) != 1 or list(lin.values())[0] != 1 or isinstance(o, SProd):
                     ts = None
                     break
                 c = frac(c)
